@@ -115,8 +115,7 @@ mutual
     | .compoundCurve gs =>
       (match gs with
        | g :: rest => if rest.any (fun h => !sameFlags (seqOf g) (seqOf h)) then ["compound-section-dims-promoted"] else []
-       | [] => []) ++
-      (if gs.any gIsEmpty then ["compound-empty-section-unreadable"] else [])
+       | [] => [])
     | .curvePolygon gs =>
       (if gIsEmpty (.curvePolygon gs) then
         (match gs with
